@@ -228,6 +228,18 @@ def run(ctx):
             c2 = [("Eff", "W", [])] + list(cmds) + [("Bad", "S", [("Req", "not a number")])]
             sc = Scenario(c2, wd=tmp, libs=LIBS)
             scs.append((sc, ("ParameterNotValid", sc.lines[-1][1][0]), kind))
+    # directed: a writer whose output lies in a folder that does not exist yet, and a fault elsewhere in the model (any order): nothing is created
+    k = 0
+    for wcmd, wargs in (("EEMSWrite", [("OutFieldNames", [Name("Rd")])]), ("PrintVars", [("InFieldNames", [Name("Rd")])])):
+        for fault, err, argi in ((("Bad", "S", [("Req", "not a number")]), "ParameterNotValid", 0), (("Bad", "N", [("One", Name("NoSuchResult"))]), "ResultDoesNotExist", 0),
+                                 (("Bad", "D", [("Data", Name("Fz"))]), "ResultIsFuzzy", 0), (("Bad", "S", [("Req", 1), ("PathIn", "missing_file.csv")]), "PathDoesNotExist", 1)):
+            for first in (True, False):
+                k += 1
+                writer = ("Out%d" % k, wcmd, wargs + [("OutFileName", "newfolder_%d/sub/out.csv" % k)])
+                cmds = producers(env) + ([writer, fault] if first else [fault, writer])
+                sc = Scenario(cmds, wd=tmp, libs=LIBS)
+                idx = len(cmds) - (1 if first else 2)
+                scs.append((sc, (err, sc.lines[idx][1][argi]), "rejected-with-writer"))
     # models extended through add_command after a successful run: the additions are validated like everything else, before anything executes
     ext = []
     for _ in range(ctx.budget(10, 300)):
